@@ -73,6 +73,7 @@ fn base(p: &Params) -> Program {
     Program {
         e0: p.get("e0", 0) as usize,
         classes: p.get("classes", crate::sched::RC as i64) as u8,
+        claim: crate::exec::claim_of(p),
         ..Default::default()
     }
 }
@@ -782,7 +783,11 @@ fn weak_holder(p: &Params) -> Program {
 }
 
 fn weak_through_zero(p: &Params) -> Program {
-    let destructed = p.get("destructed", 1) != 0;
+    // destructed: 0 = the object stays alive; 1 = it was destructed long ago; 2 = its last strong
+    // owner is gone and the destruction attempt is `pre` rounds old (it fires in the concurrent
+    // phase, possibly while the reader is inside its critical section)
+    let destructed = p.get("destructed", 1);
+    let pre = p.get("pre", 2) as usize;
     Program {
         setup: Some(body(move |c, w| {
             let x = c.new_node(1);
@@ -790,11 +795,16 @@ fn weak_through_zero(p: &Params) -> Program {
             let g = c.pin();
             c.wstore(&w.wroots[0], wk, &g);
             c.unpin(g);
-            if destructed {
-                c.drop_rc(x);
-                c.rounds(8);
-            } else {
-                w.rc[0].put(x);
+            match destructed {
+                0 => w.rc[0].put(x),
+                1 => {
+                    c.drop_rc(x);
+                    c.rounds(8);
+                }
+                _ => {
+                    c.drop_rc(x);
+                    c.rounds(pre);
+                }
             }
         })),
         threads: vec![
